@@ -27,6 +27,8 @@ def ford_children(obj):
         return []
     out = []
     for l in FORD_LISTS:
+        if l == "args" and isinstance(obj, sf.FortranModuleProcedureImplementation):
+            continue          # correlate() hands it the argument objects of its interface: not its own
         items = getattr(obj, l, None)
         if isinstance(items, list):
             ll = "procs" if isinstance(obj, sf.FortranSourceFile) and l in ("functions", "subroutines") else l
@@ -66,9 +68,9 @@ def ident(keys, l, obj):
 
 
 def walk_ford(keys, roots):
-    """id -> object for everything reachable through the entity lists"""
+    """id -> (list name, object) for everything reachable from roots [(list name, object)] through the lists"""
     found = {}
-    stack = [("files", r) for r in roots]
+    stack = list(roots)
     seen = set()
     while stack:
         l, obj = stack.pop()
@@ -77,7 +79,7 @@ def walk_ford(keys, roots):
         seen.add(id(obj))
         i = ident(keys, l, obj)
         if i is not None and i not in found:
-            found[i] = obj
+            found[i] = (l, obj)
         if i is not None or l == "files":
             stack += ford_children(obj)
     return found
@@ -92,7 +94,7 @@ def run_ford(files, texts, cfg):
             p = F.parse_project(w.root, correlate=False, display=list(cfg["display"]),
                                 proc_internals=cfg["proc_internals"], hide_undoc=cfg["hide_undoc"],
                                 incl_src=cfg.get("incl_src", True), dbg=False)
-            before = walk_ford(keys, p.files)
+            before = walk_ford(keys, [("files", f) for f in p.files])
             cwd = __import__("os").getcwd()
             __import__("os").chdir(w.root)
             try:
@@ -102,9 +104,12 @@ def run_ford(files, texts, cfg):
                 __import__("os").chdir(cwd)
         except Exception as e:  # noqa — an exception of the implementation is an output
             return ("EXC", f"{type(e).__name__}: {e}")
-        after = walk_ford(keys, p.files)
-        objs = dict(after)
-        objs.update(before)
+        after = walk_ford(keys, [("files", f) for f in p.files])
+        # objects created by correlate() below entities that were pruned away (variables of common blocks)
+        late = walk_ford(keys, list(before.values()))
+        objs = {i: o for i, (l, o) in late.items()}
+        objs.update({i: o for i, (l, o) in after.items()})
+        objs.update({i: o for i, (l, o) in before.items()})
         out = {}
         perms = {}
         for i, o in objs.items():
@@ -165,6 +170,9 @@ def check_project(chk, files, texts, cfgs, what, stats):
         reg = code >> 2
         payload = {"what": what, "cfg": cfg, "file": f["name"], "files": texts, "tree": f, "code": code,
                    "meaning": "bit0 model!=impl, bit1 impl differs from the Spec, bits>=2 region mask " + str(REGIONS)}
+        if (code & 1 or (code & 2 and (reg == 0 or reg & 64))) and stats["diagnosed"] < 3:
+            stats["diagnosed"] += 1
+            payload["diagnosis"] = chk.coq_eval(IMPORTS, f"diagnose {terms[idx]}")
         if code & 2:
             chk.disagreements += 1
             if reg == 0 or reg & 64:
@@ -179,9 +187,8 @@ def check_project(chk, files, texts, cfgs, what, stats):
         if code & 1:
             stats["model-mismatch"] += 1
             if not (code & 2 and reg == 0):
-                if stats["model-mismatch"] <= 3:
-                    payload["diagnosis"] = chk.coq_eval(IMPORTS, f"diagnose {terms[idx]}")
                 chk.violation("broken-correspondence", payload, False)
+
 
 
 def all_cfgs(rng=None, n=None):
